@@ -1,16 +1,22 @@
 (* C03 - pause/resume and suspend/release do not change the recorded data.
 
-   SHIPPED AS PARTIAL (DESIGN 5, C03): the data-equivalence statement (b) -- final map (run, stream, seq_num) -> data
-   and every num_events equal to the uninterrupted run, under checkpoint-local determinism of the devices -- is NOT
-   proved; it is decided on the differential corpus by the implementation-side oracle (harness/props/C03.py).
-   Proved here, about the bundler of Engine/RE.v, for all bundler states:
+   (b) DATA EQUIVALENCE, proved for pause/resume (C03_data_equivalence_* below, Proofs/RE_Points*.v): for every
+   open-loop checkpointed plan (any number of points, bundles, streams, runs; class = Engine/PointSpec.v), devices
+   that do not fail and whose readings are determined by the `read` message, and EVERY well-formed schedule with
+   hard pause requests at arbitrary moments (any number, also during a replay) and resume() calls, a finished
+   execution has recorded exactly the (run, stream, seq_num, data) events and the RunStop documents of the
+   reference semantics -- hence the same as the uninterrupted execution -- and nothing raised.
+   Still decided only by the differential oracle (harness/props/C03.py): suspend/release and deferred pauses,
+   plans outside the class (stage/unstage, rewindable toggles, monitors, closed-loop plans), record_interruptions.
+   (a) Proved about the bundler of Engine/RE.v, for all bundler states:
      (a) a checkpoint snapshots every sequence counter; a rewind puts every snapshotted counter of a data stream
          back (the 'interruptions' stream keeps counting), whatever create/read/save/drop did in between, cancels the
          open bundle and keeps descriptors and run identity; the engine-level rewind (resume / _start_suspender)
          rewinds every bundler and empties the cache;
      + C04 (Props/C04.v): exactly the messages since the checkpoint are re-issued, in order. *)
 From Coq Require Import List ZArith.
-From BV Require Import Engine.RE Engine.REInst Proofs.RE_Ctl Proofs.RE_Replay Proofs.RE_CtlExamples.
+From BV Require Import Engine.RE Engine.REInst Engine.PointSpec Proofs.RE_Ctl Proofs.RE_Replay Proofs.RE_CtlExamples
+  Proofs.RE_Points Proofs.RE_PointsEx.
 Import ListNotations.
 
 Theorem C03_rewind_restores_counters :
@@ -58,13 +64,13 @@ Theorem C03_partial : C03_partial_statement.
 Proof. exact c03_partial. Qed.
 Print Assumptions C03_partial.
 
-(* the full statement, for the record (not proved): with devices whose answers after a checkpoint depend only on the
-   messages since that checkpoint, adding accepted pause/resume and suspend/release pairs to a schedule changes
-   neither the final (run, stream, seq_num) -> data map nor any RunStop *)
-Definition final_events (o : list obs) : list (nat * nat * nat * list (nat * Z)) :=
-  flat_map (fun x => match x with ODoc (DEvent r n sq dt) => [(r, n, sq, dt)] | _ => [] end) o.
-Definition stops (o : list obs) : list doc :=
-  flat_map (fun x => match x with ODoc (DStop r st_ rs num) => [DStop r st_ rs num] | _ => [] end) o.
+(* the statement planned in the design round: adding accepted pause/resume and suspend/release pairs to a schedule,
+   every other event left in place, changes neither the final (run, stream, seq_num) -> data map nor any RunStop.
+   As written it is FALSE on the model (C03_full_refuted): resuming costs task steps, a schedule with the same task
+   steps does not finish the plan.  The corrected statement quantifies over well-formed schedules instead of
+   "the same schedule plus pairs": C03_data_equivalence_pause_resume. *)
+Definition final_events := PointSpec.final_events.
+Definition stops := PointSpec.stops.
 Definition C03_full : Prop :=
   forall (P : Type) (presume : P -> input -> outcome P) (plan_of : nat -> P) (D : Type) (dev : D -> nat -> devmeth -> D * devres)
          (d : D) (paus stag : list nat) (evs evs_interrupted : list event),
@@ -82,3 +88,71 @@ Example C03_nonvacuous :
   existsb (fun x => match x with ODoc (DEvent 0 0 2 _) => true | _ => false end) o = true /\
   In (ODoc (DStop 0 XSuccess RsEmpty [(0, 2)])) o.
 Proof. exact c03_interrupted_point_is_retaken. Qed.
+
+(* ------------------------------------------------------------------ (b) data equivalence, pause/resume *)
+Theorem C03_full_refuted : ~ C03_full.
+Proof. exact naive_statement_refuted. Qed.
+Print Assumptions C03_full_refuted.
+
+(* a finished execution recorded exactly the reference documents of the plan *)
+Theorem C03_data_equivalence_reference :
+  forall (P : Type) (presume : P -> input -> outcome P) (plan_of : nat -> P) (rk : nat) (rdm : msg -> Z) (rv : val) (pid : nat)
+         (L : list msg) (SD : list doc),
+    spec_docs rk rdm L = Some SD -> follows P presume rv L (plan_of pid) ->
+    forall (D : Type) (dev : D -> nat -> devmeth -> D * devres), dev_typed D dev ->
+    forall (d : D) (paus stag : list nat) (evs : list event),
+      let s0 := fst (step P presume plan_of D dev (init P D d paus stag false) (EvMain (ACall pid))) in
+      let r := run P presume plan_of D dev (init P D d paus stag false) (EvMain (ACall pid) :: evs) in
+      sched_ok P presume plan_of D dev s0 evs = true -> reads_ok rdm None (snd r) = true -> finished P D (fst r) = true ->
+      (forall x, In x (final_events (snd r)) <-> In x (doc_events SD)) /\ stops (snd r) = doc_stops SD /\ no_raise (snd r) = true.
+Proof. exact c03_run_matches_reference. Qed.
+Print Assumptions C03_data_equivalence_reference.
+
+(* any two finished executions of the plan -- e.g. one with pause/resume at arbitrary moments and the uninterrupted
+   one -- recorded the same (run, stream, seq_num) -> data map and the same RunStop documents; no call raised *)
+Theorem C03_data_equivalence_pause_resume :
+  forall (P : Type) (presume : P -> input -> outcome P) (plan_of : nat -> P) (rk : nat) (rdm : msg -> Z) (rv : val) (pid : nat)
+         (L : list msg) (SD : list doc)
+         (D1 : Type) (dev1 : D1 -> nat -> devmeth -> D1 * devres) (d1 : D1) (paus1 stag1 : list nat) (evs1 : list event)
+         (D2 : Type) (dev2 : D2 -> nat -> devmeth -> D2 * devres) (d2 : D2) (paus2 stag2 : list nat) (evs2 : list event),
+    spec_docs rk rdm L = Some SD -> follows P presume rv L (plan_of pid) ->
+    dev_typed D1 dev1 -> dev_typed D2 dev2 ->
+    let r1 := run P presume plan_of D1 dev1 (init P D1 d1 paus1 stag1 false) (EvMain (ACall pid) :: evs1) in
+    let r2 := run P presume plan_of D2 dev2 (init P D2 d2 paus2 stag2 false) (EvMain (ACall pid) :: evs2) in
+    sched_ok P presume plan_of D1 dev1 (fst (step P presume plan_of D1 dev1 (init P D1 d1 paus1 stag1 false) (EvMain (ACall pid)))) evs1 = true ->
+    sched_ok P presume plan_of D2 dev2 (fst (step P presume plan_of D2 dev2 (init P D2 d2 paus2 stag2 false) (EvMain (ACall pid)))) evs2 = true ->
+    reads_ok rdm None (snd r1) = true -> reads_ok rdm None (snd r2) = true ->
+    finished P D1 (fst r1) = true -> finished P D2 (fst r2) = true ->
+    (forall x, In x (final_events (snd r1)) <-> In x (final_events (snd r2))) /\
+    stops (snd r1) = stops (snd r2) /\ no_raise (snd r1) = true /\ no_raise (snd r2) = true.
+Proof. exact c03_data_equivalence. Qed.
+Print Assumptions C03_data_equivalence_pause_resume.
+
+(* at every moment of such an execution, finished or not: only events of the reference run, nothing raised *)
+Theorem C03_data_equivalence_every_prefix :
+  forall (P : Type) (presume : P -> input -> outcome P) (plan_of : nat -> P) (rk : nat) (rdm : msg -> Z) (rv : val) (pid : nat)
+         (L : list msg) (SD : list doc),
+    spec_docs rk rdm L = Some SD -> follows P presume rv L (plan_of pid) ->
+    forall (D : Type) (dev : D -> nat -> devmeth -> D * devres), dev_typed D dev ->
+    forall (d : D) (paus stag : list nat) (evs : list event),
+      let s0 := fst (step P presume plan_of D dev (init P D d paus stag false) (EvMain (ACall pid))) in
+      let r := run P presume plan_of D dev (init P D d paus stag false) (EvMain (ACall pid) :: evs) in
+      sched_ok P presume plan_of D dev s0 evs = true -> reads_ok rdm None (snd r) = true ->
+      (forall x, In x (final_events (snd r)) -> In x (doc_events SD)) /\ no_raise (snd r) = true.
+Proof. exact c03_every_prefix_safe. Qed.
+Print Assumptions C03_data_equivalence_every_prefix.
+
+(* non-vacuity: four executions recorded from the real RunEngine (uninterrupted, paused after a save, paused twice --
+   once during the replay --, paused inside a read) are reproduced by the model, meet every hypothesis above, and the
+   interrupted ones do re-issue reads and re-emit an event *)
+Example C03_data_equivalence_nonvacuous :
+  spec_docs 0 ex_rdm ex_L = Some ex_SD /\ follows TP (t_resume ex_tapes) (VUid 0) ex_L (t_plan_of 0) /\
+  (forall ledger, dev_typed nat (ty_dev ledger)) /\
+  (hyps_ok ex_plain_ledger ex_plain_evs' = true /\ hyps_ok ex_after_save_ledger ex_after_save_evs' = true /\
+   hyps_ok ex_twice_ledger ex_twice_evs' = true /\ hyps_ok ex_in_read_ledger ex_in_read_evs' = true) /\
+  check ex_tapes ex_after_save_ledger [2] [0; 3] false ex_after_save_evs ex_after_save_obs = true /\
+  List.length (PointSpec.final_events ex_plain_obs) = 2 /\ List.length (PointSpec.final_events ex_after_save_obs) = 3 /\
+  ((forall x, In x (PointSpec.final_events ex_after_save_obs) <-> In x (PointSpec.final_events ex_plain_obs)) /\
+   PointSpec.stops ex_after_save_obs = PointSpec.stops ex_plain_obs /\ no_raise ex_after_save_obs = true).
+Proof. exact c03_equivalence_nonvacuous. Qed.
+
